@@ -29,6 +29,7 @@ from labtech.types import ResultMeta, Storage, TaskResult
 import lv_universe as U
 import sched_h as S
 from common import coq_failing, rng_for, CoqError, g_list, g_nats, g_bool, g_pair, g_val, g_opt, subdir
+from common import storage_of
 
 logging.getLogger('labtech').setLevel(logging.CRITICAL)
 
@@ -168,7 +169,7 @@ def run_history(h):
                         if k.result_meta is None:
                             problems.append(('no-result-meta', f'requested task {built.tid_of[k]} returned without result_meta'))
                         elif storage is not None and S.CACHEABLE[case['types'][built.tid_of[k]]]:
-                            sm = stored_meta(lab._storage, k)
+                            sm = stored_meta(storage_of(lab), k)
                             if sm is not None and (sm != (k.result_meta.start, k.result_meta.duration)):
                                 problems.append(('result-meta-differs', f'task {built.tid_of[k]} returned with result_meta {k.result_meta} but the entry stored for it records {sm}'))
                     # C02: nothing may succeed on a dependency that failed in this very call
